@@ -81,6 +81,13 @@ def integrate(ctx: Ctx, rule: str) -> None:
     if ok:
         ifs = [s for s in inner[0].body if isinstance(s, ast.If)]
         ok = len(ifs) == 1 and isinstance(ifs[0].body[-1], ast.Break)
+        if ok:
+            nc = ast.unparse(inner[0].target)
+            exact = norm.equivalent(norm.formula(ifs[0].test), norm.formula(ast.parse(f"{nc}.can_add_interface({it})", mode="eval").body))
+            # a fresh netconfig is registered under its net_ip: if an existing one of that subnet is passed over, it is overwritten in the registry
+            ctx.record(rule + "x", "GUARD", fref, "an existing netconfig is passed over only when can_add_interface refuses (the test is exactly can_add_interface, nothing narrower)", exact,
+                       {"test": ast.unparse(ifs[0].test)}, "" if exact else f"the test for joining an existing netconfig is no longer exactly can_add_interface ({ast.unparse(ifs[0].test)}): "
+                       "an interface of an already registered subnet creates a second netconfig that overwrites the first under the same net_ip key")
     ctx.record(rule + "s", "COUNT", fref, "search over all existing netconfigs with for/else; the add is followed by break", ok, {}, "" if ok else "the search for a fitting netconfig changed shape")
     first = the_loop(ctx, fref, ast.For, lambda l: "objects('nics')" in ast.unparse(l.iter), "loop over the node's nics")
     stores = {ast.unparse(s.targets[0]): ast.unparse(s.value) for s in first.body if isinstance(s, ast.Assign)}
@@ -300,6 +307,7 @@ def run(ctx: Ctx) -> None:
 
 
 MUTANTS = [
+    ("join-only-same-bridge", "vmnet/network.py", "                if netconfig.can_add_interface(interface):", "                if netconfig.can_add_interface(interface) and interface.params.get(\"netdst\") == netconfig.netdst:", "x"),
     ("add-without-break", NET, "                    netconfig.add_interface(interface)\n                    break\n            else:", "                    netconfig.add_interface(interface)\n            else:", "1"),
     ("fresh-not-registered", NET, "                netconfig.add_interface(interface)\n                self.netconfigs[netconfig.net_ip] = netconfig", "                netconfig.add_interface(interface)", "1"),
     ("add-without-validate", NC, "        self.interfaces[interface.ip].netconfig = self\n        self.validate()", "        self.interfaces[interface.ip].netconfig = self", "2"),
